@@ -42,9 +42,9 @@ RULE = ('A real asyncssh client connects by host name / alias / address and '
 ASSUMPTIONS = [
     'simulated event loop admits exactly asyncio-legal executions',
     'only known_hosts constructs whose meaning is documented are generated; '
-    'a port-form line that only revokes combined with a bare-name line that '
-    'trusts, CIDR with a non-default port, and bracketed wildcard patterns '
-    'are not generated',
+    'CIDR with a non-default port and bracketed wildcard patterns are not '
+    'generated. A key revoked under the [host]:port form stays revoked when '
+    'the lookup falls back to the lines without a port (OpenSSH semantics)',
     'certificate validity is compared with the half-open window '
     'valid_after <= now < valid_before on the simulated clock',
     'X.509 certificates are not exercised',
@@ -176,6 +176,21 @@ def gen_plan(rng):
                                       'neg': False,
                                       'portform': port != 22}],
                             'salt': 2})
+
+    if port != 22 and cred_kind in ('plain', 'cert') and rng.chance(12):
+        # revoked for this port only, trusted under the plain name (or the
+        # other way round): the key / CA the server will present
+        tname = {'host': HOST, 'alias': ALIAS, 'addr': ADDR}[target]
+        k = cred['key'] if cred_kind == 'plain' else cred['ca']
+        rev_port = rng.chance(60)
+        entries = [e for e in entries if e['key'] != k]
+        entries.append({'marker': '@revoked', 'key': k,
+                        'pats': [{'kind': 'host', 'p': tname, 'neg': False,
+                                  'portform': rev_port}], 'salt': 4})
+        entries.append({'marker': '' if cred_kind == 'plain'
+                        else '@cert-authority', 'key': k,
+                        'pats': [{'kind': 'host', 'p': tname, 'neg': False,
+                                  'portform': not rev_port}], 'salt': 5})
 
     entries = rng.shuffle(entries)
     return {
@@ -322,7 +337,12 @@ def model(plan, now):
         trusted, cas, revoked = select(entries, host, ADDR, True, port)
 
         if not trusted and not cas:
-            trusted, cas, revoked = select(entries, host, ADDR, False, port)
+            # nothing trusted is listed for [host]:port: the lines without a
+            # port apply.  What was *revoked* for [host]:port stays revoked
+            # (OpenSSH: a revoked match is not "host unknown", so it never
+            # gets as far as the port-less lookup)
+            trusted, cas, rev2 = select(entries, host, ADDR, False, port)
+            revoked = revoked | rev2
     else:
         trusted, cas, revoked = select(entries, host, ADDR, False, port)
 
